@@ -29,7 +29,7 @@ def group(gid, ref, variants, reps=2):
     r = dict(ref, g=gid, rel="ref", ex=1)
     out.append(r)
     for _ in range(reps):
-        out.append(dict(r, rel="same"))
+        out.append(dict(r, rel="same", reps=0))
     for v in variants:
         out.append(dict(v, g=gid, ex=1))
     return out
@@ -44,7 +44,9 @@ def c07_cases(tier, rng):
     rng.shuffle(inputs)
     inputs = inputs[:1200 if tier == "quick" else 12000]
     rnd = random_inputs(rng, 500 if tier == "quick" else 6000, 4, 14, density=1.3, loop_rate=0.15) + \
-        random_inputs(rng, 700 if tier == "quick" else 8000, 6, 14, density=1.3, connected=True, simple=True, loop_rate=0)
+        random_inputs(rng, 700 if tier == "quick" else 8000, 6, 14, density=1.3, connected=True, simple=True, loop_rate=0) + \
+        random_inputs(rng, 1500 if tier == "quick" else 15000, 4, 6, density=1.7, loop_rate=0.03, par_rate=0.05, anti_rate=0.15) + \
+        random_inputs(rng, 800 if tier == "quick" else 8000, 5, 8, density=1.5, connected=True, simple=True, loop_rate=0)
     gid = 0
     nspl = 0
     for (n, e), cb in rotate(inputs + rnd, combos, 1, rng):
@@ -56,6 +58,9 @@ def c07_cases(tier, rng):
             nspl += 1
             if nspl > (60 if tier == "quick" else 400):
                 c["p5"] = "poly"
+        # besides the logged repetitions, the driver repeats the reference 40 (thorough: 120) more times in-process and
+        # logs those runs whose result differs (every logged run is judged by the specification)
+        c["reps"] = (40 if tier == "quick" else 120) if c["p5"] != "splines" else 0   # the spline router can abort the worker
         yield from group(gid, c, [], reps=2 if tier == "quick" else 5)
 
 
@@ -221,7 +226,7 @@ def c09_cases(tier, rng):
 
 
 RULES = {
-    "C07": "groups = one case run 3x (quick) / 6x (thorough) in one process and again in a fresh process (Go randomises map iteration per range statement); inputs from E(4,4)/E(4,5) with >= 2 components, self-loops, parallel/antiparallel pairs or >= 4 edges, random multigraphs with many self-loops and random connected simple graphs up to 14 nodes x full option grid (all positioners incl. forced B&K layouts, all routers); every run must return the same node order, exact coordinates (bit-exact decomposition), routes and flags as the first, and the caller's edge slice and size map are re-read after the call; non-trivial = a repeated run with >= 3 nodes",
+    "C07": "groups = one case run 3x (quick) / 6x (thorough) in one process and again in a fresh process, plus 40 (thorough: 120) further in-process repetitions per process of which the driver logs those whose result differs from the first (Go randomises map iteration per range statement; every logged run is judged by TLC); dense small multigraphs (4-6 nodes, ~1.7 edges per node) and connected simple graphs of 5-8 nodes are added because order-sensitivity needs several reversed edges on one node or symmetric siblings; inputs from E(4,4)/E(4,5) with >= 2 components, self-loops, parallel/antiparallel pairs or >= 4 edges, random multigraphs with many self-loops and random connected simple graphs up to 14 nodes x full option grid (all positioners incl. forced B&K layouts, all routers); every run must return the same node order, exact coordinates (bit-exact decomposition), routes and flags as the first, and the caller's edge slice and size map are re-read after the call; non-trivial = a repeated run with >= 3 nodes",
     "C08": "groups = reference names N1..Nk run 3x + 3 (quick) / 6 (thorough) injective renamings drawn from the helper-node alphabets (V<k>, NE<k>), the empty string, a 300-character name and Unicode/control characters; E(4,4)/E(4,5) lists with >= 3 edges and random multigraphs up to 12 nodes x all positioners x three routers x size options; drawings compared as bags of exact node rectangles and exact routes modulo the renaming; judged only when the reference is stable (rule 8b)",
     "C17": "groups = reference scale run 3x + scaled runs (sizes, NodeSpacing, LayerSpacing x 2^k, k in -3..6, 3 values quick / all 9 thorough); the driver divides the output by 2^k and TLC requires exact equality (bit-exact mantissa/exponent decomposition) of every coordinate and route point plus equal order and flags; E(4,4)/E(4,5) and random multigraphs up to 25 nodes x SinkColoring, VAlign, PackRight, B&K (balanced and the four forced layouts) x Straight, Polyline, Ortho x size patterns incl. zero and odd sizes x spacings incl. 0; judged only when the reference is stable",
     "C18": "transparency: groups = a case without monitor run 3x + the same case with a recording monitor; exact equality of the returned layout; E(4,4)/E(4,5) and random multigraphs x full positioner grid",
